@@ -41,13 +41,26 @@ def main(argv):
     driver = None
     reg = leantie.regenerate()
     ctx.lean["regenerated"] = {"changed": reg["changed"], "errors": reg["errors"]}
+    pm = mod.PROOF_MODULE
+    proof_modules = [pm] if isinstance(pm, str) else list(pm)
+    # a regenerated file that could not be produced breaks the tie of the properties whose theorems mention it
+    relevant = set(getattr(mod, "GENERATED", ["DrawDecision", "Constants"]))
     for name, err in reg["errors"].items():
-        ctx.tie_break("regeneration:" + name, err)
-    b = leantie.build()
-    ctx.lean["build"] = {"ok": b["ok"], "wall_s": b["wall_s"]}
+        if name in relevant:
+            ctx.tie_break("regeneration:" + name, err)
+        else:
+            ctx.lean["regenerated"].setdefault("errors_elsewhere", {})[name] = err
+    # build what this property needs (its proof modules and the model driver); a broken proof file of
+    # another property must not break this one
+    bd = leantie.build(("OdeVerif.Driver",))
+    b = leantie.build(tuple(proof_modules)) if bd["ok"] else bd
+    ctx.lean["build"] = {"ok": b["ok"] and bd["ok"], "wall_s": round(b["wall_s"] + bd["wall_s"], 2)}
+    if not bd["ok"]:
+        ctx.tie_break("lake build (model driver)", bd["output"][-2500:])
     if not b["ok"]:
         ctx.lean["build"]["output_tail"] = b["output"][-2500:]
-        ctx.tie_break("lake build", b["output"][-2500:])
+        if bd["ok"]:
+            ctx.tie_break("lake build", b["output"][-2500:])
         for t in mod.THEOREMS:
             ctx.obligations[t] = {"status": "build-failed", "axioms": []}
     else:
@@ -56,6 +69,8 @@ def main(argv):
         for t, st in aud.items():
             if st["status"] != "ok":
                 ctx.tie_break("theorem:" + t, st["status"] + " " + ",".join(st["axioms"]) + " :: " + raw[-600:])
+    if bd["ok"]:
+        # the model driver does not depend on the proof modules: correspondence and search still run when a proof broke
         try:
             driver = leantie.Driver()
         except Exception as e:
